@@ -310,6 +310,25 @@ def byteswaps(bs, acc, seed):
                         if again != ('ok', (reps, d)):
                             acc.violation('byteswap', 'value', dict(fmt=str(fmt), bits=d if L <= 64 else f'{L} bits', repeat=rep, what='twice', group='twice'),
                                           '\n'.join(["import bitstring", f"a = bitstring.BitArray(bin={d!r})", f"a.byteswap({fmt!r}, repeat={rep}); a.byteswap({fmt!r}, repeat={rep})", f"assert a.bin == {d!r}"]), d[:40], str(again)[:120])
+    # windows: byteswap(fmt, start, end, repeat) against the C03 reference model (bsmc.models.mut.byteswap), both classes
+    from ..models import mut as M
+    for L in (16, 24, 40, 64, 72):
+        for d in families.edge(L, seed, full=False)[2:5]:
+            for fmt, _ in pats:
+                for (st, en) in ((8, None), (None, L - 8), (8, L - 8), (3, None), (16, 24), (-16, None), (5, 5), (0, L), (8, L + 8), (L, None)):
+                    for rep in (True, False):
+                        for cls in ('BitArray', 'BitStream'):
+                            a = getattr(bs, cls)(bin=d)
+                            (eobs, enew), = M.byteswap(d, fmt, st, en, rep)
+                            got = obs(lambda: (a.byteswap(fmt, st, en, repeat=rep), a.bin))
+                            ok_ = int(eobs[0] == 'ok')
+                            acc.step('byteswap', 1, nontrivial=int(ok_ and bool(eobs[1])), ok=ok_, rej=1 - ok_)
+                            good = (got == ('ok', (eobs[1], enew))) if ok_ else (got[0] == 'exc' and got[1] in ('ValueError', 'CreationError') and a.bin == d)
+                            if not good:
+                                acc.violation('byteswap', 'value' if got[0] == 'ok' else 'exc', dict(fmt=str(fmt), bits=d if L <= 64 else f'{L} bits', start=st, end=en, repeat=rep, cls=cls, group=f'window|{fmt}'),
+                                              '\n'.join(["import bitstring", f"a = bitstring.{cls}(bin={d!r})", "try:", f"    r = ('ok', a.byteswap({fmt!r}, {st}, {en}, repeat={rep}))",
+                                                         "except ValueError:", "    r = ('exc', None)", f"assert (r, a.bin) == ({eobs!r}, {enew!r}), (r, a.bin)"]),
+                                              (eobs, enew[:40]), str(got)[:120])
     # byteswap converts between le and be interpretation; Array.byteswap
     for c in 'hHiIqQefd':
         vs = [v for v in vals(c) if not (isinstance(v, float) and v != v)]
